@@ -24,3 +24,6 @@ Proof.
     + rewrite E1, E2. rewrite <- E1, <- E2. apply IH.
     + destruct (ev e x) as [[e1 r|e1 v]|]; cbn [bindF]; try reflexivity. rewrite E1, E2, <- E1, <- E2. apply IH.
 Qed.
+
+Lemma loopN_S C k : loopN C (S k) = loop_step (eval C (loopN C k)).
+Proof. reflexivity. Qed.
